@@ -33,6 +33,9 @@ def _get_or_none(k, d, t):
         value = v, 
         attr_name = k)
       raise ConfigParserException(msg)
+    if isinstance(v, float) and (v != v or v in (float("inf"), float("-inf"))):
+      raise ConfigParserException("Configuration option [{section_name}].{attr_name} must be a finite number. Value is = {value}".format(
+        section_name = d.name, value = v, attr_name = k))
   return v
 
 ConfigParserOverrideTuple = collections.namedtuple("ConfigParserOverrideTuple", ["section", "key", "value"])
